@@ -12,6 +12,7 @@ Template directives (each on its own line, everything else is copied through):
   //@loop <ordinal>
       <invariant / decreases text, spliced between loop header and `{`>
   //@hint before|after /<regex over one source line of the body>/
+  //@hint start                      (ghost text at the very start of the body: entry-state snapshots, independent of statement order)
       <ghost text: assert / proof { } / let ghost>
   //@subst <key>                                  one of ALLOWED_SUBST, applied to the fn text
   //@endfn
@@ -99,6 +100,10 @@ ALLOWED_SUBST = {
     "with_suggestion_dropped": (r"\n\s*\.with_suggestion\(\|\| \{\s*format!\((?:[^()]|\([^()]*\))*\)\s*\}\)", "",
                                 "`.with_suggestion(|| { format!(..) })` dropped (color_eyre::Section: assumed to map Ok to Ok and Err to Err, "
                                 "only attaching a help text to the error report)"),
+    "into_iter_chain_collect": (r"(\w+)\.into_iter\(\)\.chain\((\w+)\)\.collect\(\)", r"vec_chain_collect(\1, \2)",
+                                "`a.into_iter().chain(b).collect()` with a, b: Vec<T> -> mirrored `vec_chain_collect(a, b)` (assumed std meaning: a ++ b)"),
+    "slice_shuffle_m": (r"(\w+)\.shuffle\((\w+)\);", r"slice_shuffle(&mut \1, \2);",
+                        "`v.shuffle(rng)` -> mirrored `slice_shuffle(&mut v, rng)` (assumed rand meaning: some permutation of the elements)"),
     "phantom_fn": (r"PhantomData<fn\(\) -> (\w+)>", r"PhantomData<\1>",
                    "`PhantomData<fn() -> P>` -> `PhantomData<P>` (variance marker only; Verus has no fn-pointer types)"),
     "temp_guard_rotate": (r"(?m)^(\s*)state\.populations_mut\(\)\.rotate\(self\.n\);", r"\1let mut verif_tmp = state.populations_mut(); verif_tmp.rotate(self.n);",
@@ -318,6 +323,10 @@ def extract_fn(relpath, impl_header, name, opts, spec_text, loops, hints, substs
     if opts.get("expect_loops") is not None and int(opts["expect_loops"]) != len(found_loops):
         raise AnchorError(f"{name}: expected {opts['expect_loops']} loops, found {len(found_loops)}")
     for where, rx, text in hints:
+        if where == "start":
+            inserts.append((body.index("{") + 1, "\n" + text.rstrip() + "\n"))
+            rw.add("ghost-inserted", "contract / loop invariant / ghost hint text spliced in (no executable tokens)")
+            continue
         # match against single lines of the body; `/rx/#k` selects the k-th of exactly-known many matches
         occ = None
         if "\x00" in rx:
@@ -547,11 +556,14 @@ def expand(template_path):
                     loops.append([int(t.split()[1]), buf])
                     cur = buf
                 elif t.startswith("//@hint "):
-                    m = re.match(r"//@hint (before|after) /(.*)/(?:#(\d+))?\s*$", t)
-                    if not m:
-                        raise AnchorError(f"bad hint directive: {t}")
                     buf = []
-                    hints.append([m.group(1), m.group(2) + ("\x00" + m.group(3) if m.group(3) else ""), buf])
+                    if t == "//@hint start":      # ghost declarations at the very start of the body (entry-state snapshots)
+                        hints.append(["start", "", buf])
+                    else:
+                        m = re.match(r"//@hint (before|after) /(.*)/(?:#(\d+))?\s*$", t)
+                        if not m:
+                            raise AnchorError(f"bad hint directive: {t}")
+                        hints.append([m.group(1), m.group(2) + ("\x00" + m.group(3) if m.group(3) else ""), buf])
                     cur = buf
                 elif t.startswith("//@subst "):
                     substs.append(t[len("//@subst "):].strip())
